@@ -194,6 +194,71 @@ mutual
       else pjScalar rq f j
 end
 
+/-! ### the surgery family: per-field edits of the object, then protojson -/
+
+/-- a member of an annotated field after the generated edit: left alone, replaced, deleted, or
+(a Timestamp given as unix number / date) decoded on the spot. A failing conversion leaves the
+member as it is — the error is dropped and protojson decides (cf. `Decode.Impl.editMember`). -/
+inductive SEdit
+  | keep
+  | replace (j : Json)
+  | delete
+  | ts (secs : Int) (nanos : Nat)
+  | outside                        -- a template this model does not cover
+
+def surgeryEdit (f : Field) (j : Json) : SEdit :=
+  if f.kind.isInt64 && f.int64Enc == 2 && f.card != .map then
+    if f.card == .repeated then
+      match Decode.goIntList (f.kind == .uint64 || f.kind == .fixed64) j with
+      | some l => .replace (.arr (l.map fun n => .str (intToDec n)))
+      | none => .keep
+    else
+      match Decode.goInt (f.kind == .uint64 || f.kind == .fixed64) j with
+      | some n => .replace (.str (intToDec n))
+      | none => .keep
+  else if f.nullable then (if j.isNull then .delete else .keep)
+  else if f.emptyBehavior == 2 then (if j.isNull then .replace (.obj []) else .keep)
+  else if f.kind == .message && isTimestampName f.typeName && (f.tsFormat == 2 || f.tsFormat == 3 || f.tsFormat == 4) then
+    if f.card != .singular then .outside else
+    match f.tsFormat with
+    | 2 => (match Decode.goInt false j with | some n => .ts n 0 | none => .keep)
+    | 3 => (match Decode.goInt false j with | some n => .ts (n / 1000) ((n % 1000).toNat * 1000000) | none => .keep)
+    | _ => (match Decode.goStr j with
+        | some t => (match Decode.parseDate t with | some d => .ts (d * 86400) 0 | none => .keep)
+        | none => .keep)
+  else if f.kind == .bytes && f.bytesEnc ≥ 2 && f.bytesEnc ≤ 5 then
+    if f.card != .singular then .outside else
+    match Decode.goStr j with
+    | some t => (match sebufBytesDecode f.bytesEnc (Decode.toBytes t) with
+        | some b => .replace (.str (Decode.ofBytes (b64Encode .std b)))
+        | none => .keep)
+    | none => .keep
+  else .keep
+
+/-- `UnmarshalJSON` of the surgery family (int64 NUMBER, nullable, empty_behavior, timestamp_format,
+bytes_encoding): one edit per annotated field, then `protojson.Unmarshal`. -/
+def surgeryDec (rq : Request) (fuel : Nat) (m : Message) (j : Json) : R (List (Str × Val)) :=
+  match j with
+  | .obj kvs =>
+    let raw := Decode.Impl.goMap kvs
+    let edits : List (Field × SEdit) := m.fields.filterMap fun f => (oget f.json raw).map fun v => (f, surgeryEdit f v)
+    if edits.any (fun e => match e.2 with | .outside => true | _ => false) then .error (.unsupported "generated decoder outside the model".toList)
+    else
+      match edits.find? (fun e => match e.2 with | .ts secs _ => !Decode.tsInRange secs | _ => false) with
+      | some e => .error (.badValue e.1.name)
+      | none =>
+        let raw' := edits.foldl (fun r e => match e.2 with
+          | .replace v => oset e.1.json v r
+          | .delete => odel e.1.json r
+          | .ts _ _ => odel e.1.json r
+          | _ => r) raw
+        (pjDecMsg rq fuel m (.obj raw')).map fun vs =>
+          m.fields.filterMap fun f =>
+            match edits.find? (fun e => e.1.name == f.name) with
+            | some (_, .ts secs ns) => some (f.name, .ts secs ns [] [])
+            | _ => (vs.lookup f.name).map fun v => (f.name, v)
+  | _ => .error .notObject
+
 /-! ### json.Unmarshal into protoc-gen-go structs -/
 
 def goEnumDec (rq : Request) (f : Field) (j : Json) : R Val :=
@@ -273,12 +338,7 @@ mutual
       else if Impl.needsOneofMarshal m then oneofDec rq n m j
       else if isRootUnwrap m then rootDec rq n m j
       else if isContainer rq m then containerDec rq n m j
-      else if hasCustomMarshal rq m then
-        -- the surgery family: only the edits protojson would read the same way are modelled
-        -- (int64 NUMBER: number -> decimal string; nullable: null -> absent)
-        if m.fields.all (fun f => f.emptyBehavior == 0 && (f.tsFormat == 0 || f.tsFormat == 1) &&
-              (f.bytesEnc == 0 || f.bytesEnc == 1)) then pjDecMsg rq (n + 1) m j
-        else .error (.unsupported "generated decoder outside the model".toList)
+      else if hasCustomMarshal rq m then surgeryDec rq (n + 1) m j
       else pjDecMsg rq (n + 1) m j
 
   /-- `json.Unmarshal(data, ptr)` for a pointer to the message type named `ty`. -/
